@@ -32,33 +32,45 @@ Old == [R \in {T3(Rec.oldR[k]) : k \in 1..Len(Rec.oldR)} |->
            IN [a \in 1..nw |-> [b \in 1..nw |-> [c \in 1..nc |-> T4(Rec.old[k][a][b][c])]]]]
 AllMinusSym(W) == \A d \in DOMAIN W : W[Neg3(d)] = MinusSet(W[d])
 AllInBox == \A d \in Shifts(Tau) : InSearchBox(P, d)
+(* the exact replica set is claimed only where the statement fixes it: the pair lies inside the search-box precondition
+   (outside, the result depends on how many super-cells the code searches -- DESIGN 7.2), the tolerance is tight (with a loose
+   one the set depends on the exact form of the tolerance test) and no distance is within rounding of the boundary:
+   amb  = an exact tie with the tolerance, decided by the specification;
+   near = Rec.near, computed by the harness in floating point: some |dist - dist_min - tol| is below twice the displacement of
+          the shift by the code's decimal rounding of the centres (centres in thirds, sixths, twelfths) plus 1e-9 *)
+Tight == Rec.tol[1] * 1000 <= Rec.tol[2]
+Undetermined(amb) == amb \/ Rec.near
+Union(a, b) == {e[1] : e \in RecPair(a, b)}
 
 SetRvecClauses(W, amb) ==
    [ (* the specification decides the same replicas and degeneracies (exact, per pair of Wannier functions) *)
-     equals_spec    |-> amb \/ \A a, b \in 1..nw : RecPair(a, b) = W[Delta(Tau, a, b)],
-     (* pairs with equal shifts share one set (shift_index), no replica listed twice *)
+     equals_spec    |-> Undetermined(amb) \/ ~Tight
+                        \/ \A a, b \in 1..nw : InSearchBox(P, Delta(Tau, a, b)) => RecPair(a, b) = W[Delta(Tau, a, b)],
+     (* pairs with equal shifts have equal sets, no replica listed twice *)
      shift_classes  |-> \A a, b, c, d \in 1..nw : Delta(Tau, a, b) = Delta(Tau, c, d) => RecPair(a, b) = RecPair(c, d),
      no_duplicates  |-> \A a, b \in 1..nw : NoDuplicates(RecPair(a, b)) /\ Cardinality(RecPair(a, b)) = RecPairLen(a, b),
      (* C01 on the recorded values *)
      weights_one    |-> \A a, b \in 1..nw : WeightsPerClass(P, RecPair(a, b)),
      weights_total  |-> \A a, b \in 1..nw : TotalWeightOK(P, RecPair(a, b), LcmSet({e[2] : e \in RecPair(a, b)})),
-     minus_symmetry |-> amb \/ ~AllInBox \/ \A a, b \in 1..nw : RecPair(b, a) = MinusSet(RecPair(a, b)),
-     irvec_is_union |-> RecIRvec = UNION {{e[1] : e \in RecPair(a, b)} : a, b \in 1..nw} /\ Cardinality(RecIRvec) = Len(Rec.iRvec),
-     unambiguous    |-> ~amb ]
+     minus_symmetry |-> Undetermined(amb) \/ \A a, b \in 1..nw : InSearchBox(P, Delta(Tau, a, b)) => RecPair(b, a) = MinusSet(RecPair(a, b)),
+     (* iRvec contains every replica (it may contain more: such R carry zero matrices), no R twice *)
+     irvec_covers   |-> (\A a, b \in 1..nw : Union(a, b) \subseteq RecIRvec) /\ Cardinality(RecIRvec) = Len(Rec.iRvec),
+     unambiguous    |-> ~Undetermined(amb) ]
 QtoRClauses(W, amb) ==
    [ input_hermitian |-> IsHermitianData(Dat),
      lcm_ok          |-> \A d \in DOMAIN RecW : \A e \in RecW[d] : Lr % e[2] = 0,
      x_on_irvec      |-> DOMAIN RecX = RecIRvec,
-     (* the recorded matrices are the specification's q_to_R of the recorded replica sets *)
-     x_equals_spec   |-> RecX = QtoR(P, Tau, RecW, Ord, Dat, Lr, nw, nc),
+     (* the recorded matrices are the specification's q_to_R of the recorded replica sets (zero blocks do not count) *)
+     x_equals_spec   |-> ExcludeZeros(RecX) = ExcludeZeros(QtoR(P, Tau, RecW, Ord, Dat, Lr, nw, nc)),
      (* C01: interpolation back to every mesh point gives the input; X(-R) = X(R)^dagger *)
      round_trip      |-> RoundTripOK(P, RecX, Ord, Dat, Lr, nw, nc),
-     hermitian_R     |-> ~AllMinusSym(RecW) \/ HermitianR(RecX) ]
+     hermitian_R     |-> ~AllMinusSym(RecW) \/ HermitianR(ExcludeZeros(RecX)) ]
 WsDistClauses(W, amb) ==
    [ lcm_ok          |-> \A d \in DOMAIN RecW : \A e \in RecW[d] : Lr % e[2] = 0,
-     x_equals_spec   |-> RecX = ExcludeZeros(RemapXXR(P, Tau, RecW, Old, Lr, nw, nc)),
+     (* which all-zero R are dropped from the list is not part of the statement *)
+     x_equals_spec   |-> ExcludeZeros(RecX) = ExcludeZeros(RemapXXR(P, Tau, RecW, Old, Lr, nw, nc)),
      mesh_values_kept |-> MeshValuesKept(P, RecX, Old, Lr, nw, nc),
-     hermitian_R     |-> ~AllMinusSym(RecW) \/ HermitianR(RecX) ]
+     hermitian_R     |-> ~AllMinusSym(RecW) \/ HermitianR(ExcludeZeros(RecX)) ]
 Clauses ==
    With([d \in Shifts(Tau) |-> WSClasses(P, d)], LAMBDA CC :
    With([d \in Shifts(Tau) |-> WSFrom(CC[d])], LAMBDA W : With(\E d \in Shifts(Tau) : AmbiguousIn(CC[d]), LAMBDA amb :
